@@ -67,6 +67,7 @@ class Rec:
         self.mm = []
         self.calls = 0
         self.events = []
+        self.cov = {}
 
     def bad(self, call, expected, observed, **kw):
         m = {"kind": "case", "case_kind": self.case[0], "case": self.case[1], "variant": self.idx,
@@ -359,6 +360,89 @@ def do_hist(R, pay, out):
             return
 
 
+# --------------------------------------------------------------------------- S2: "far"
+ULP_UNITS = 16      # RigidFitOps!UlpUnits
+QCAP = 1 << 30
+
+
+def ulp_q(r, ue):
+    """An RMSD in units of 1/16 of the float32 spacing 2^(ue-23) (floor, capped)."""
+    return int(min(QCAP, math.floor(r / 2.0 ** (ue - 23) * ULP_UNITS)))
+
+
+def masked_rmsd(a, b, idx):
+    np = _np()
+    d = (a - b)[idx]
+    return float(np.sqrt(np.mean(np.sum(d * d, axis=-1))))
+
+
+def tiny_relative_motion(F, M, idx):
+    """Coverage class only: every coordinate of the (fitted) mobile atoms lies within 1e-5 of the
+    fixed one RELATIVE to its magnitude - a 'practically unmoved' structure far from the origin."""
+    np = _np()
+    return bool(np.all(np.abs(M[idx] - F[idx]) <= 1e-5 * np.abs(F[idx])))
+
+
+def do_far(R, pay, out):
+    """Motions off the lattice: the generating motion's inverse (given by the specification as a
+    rational AffineTransformation) is a WITNESS placement; the fit must not be worse than it."""
+    np = _np()
+    from fractions import Fraction as Fr
+
+    import biotite.structure as struc
+
+    P, C, qs, t, nz, mask, fd, md, ff, mf = pay
+    nT, fdepth, F, off, Ds, wit, maskidx, W, allow, ue = out
+    n = len(F)
+    M = [[[float(Fr(F[k][i]) + Fr(off[j][k][i], Ds[j]) + Fr(t[i], t[3]) + (Fr(nz[i], nz[3]) if k == 0 else 0))
+           for i in range(3)] for k in range(n)] for j in range(len(qs))]
+    Fv = np.array(F, dtype=np.float64)
+    Mv = np.array(M, dtype=np.float64)
+    fixed = shaped_vals(Fv if fd == 0 else Fv[np.newaxis], fd, ff)
+    mobile = shaped_vals(Mv[0] if md == 0 else Mv, md, mf)
+    kw = {"atom_mask": np.array(mask[0], dtype=bool)} if mask else {}
+    R.calls += 1
+    fitted, tr = struc.superimpose(fixed, mobile, **kw)
+    if tr.rotation.shape[0] != nT:
+        R.bad("superimpose", f"{nT} transformations", f"{tr.rotation.shape[0]} transformations")
+        return
+    probs = transform_sanity(tr, mobile, fitted)
+    if probs:
+        R.bad("superimpose", "proper rotation; fitted = apply(mobile) = as_matrix form", probs)
+        return
+    fit = coords(fitted)
+    if fit.shape != ((n, 3) if md == 0 else (md, n, 3)):
+        R.bad("superimpose", [md, n, 3], list(fit.shape), what="fitted shape")
+        return
+    f3 = fit if fit.ndim == 3 else fit[np.newaxis]
+    idx = np.array(maskidx, dtype=int)
+    ulp = 2.0 ** (ue - 23)
+    ref = coords(fixed).reshape(-1, n, 3)[0]        # the coordinates the library was given
+    mob3 = coords(mobile).reshape(-1, n, 3)
+    wr = math.sqrt(W[0] / W[1])
+    # the witness placement, through the library's own apply()
+    cw = np.array([[float(Fr(w["ct"][i], w["ct"][3])) for i in range(3)] for w in wit])
+    Rw = np.array([[[(1 if i == k else 0) + w["Et"][i][k] / w["D"] for k in range(3)] for i in range(3)] for w in wit])
+    tw = np.array([w["C"] for w in wit], dtype=float)
+    R.calls += 1
+    placed = coords(struc.AffineTransformation(cw, Rw, tw).apply(mobile)).reshape(-1, n, 3)
+    for k in range(nT):
+        rf = masked_rmsd(f3[k], ref, idx)
+        rw = masked_rmsd(placed[k], ref, idx)
+        before = masked_rmsd(mob3[k] - mob3[k][idx].mean(axis=0), ref - ref[idx].mean(axis=0), idx)
+        if before > allow * ulp and tiny_relative_motion(ref, mob3[k], idx):
+            R.cov["far_tiny_relative_motion_above_rounding"] = R.cov.get("far_tiny_relative_motion_above_rounding", 0) + 1
+        if abs(rw - wr) > allow * ulp:
+            R.bad("AffineTransformation.apply", {"witness_rmsd": [W[0], W[1]], "allow_ulps": allow, "ulp_exp": ue, "model": k},
+                  {"rmsd": rw, "ulps_off": abs(rw - wr) / ulp})
+        if rf > wr + allow * ulp:
+            R.bad("superimpose", {"rmsd_on_masked_atoms<=witness": [W[0], W[1]], "allow_ulps": allow, "ulp_exp": ue, "model": k},
+                  {"rmsd": rf, "ulps_above_witness": (rf - wr) / ulp, "rmsd_before_fit_ulps": before / ulp})
+        r = float(np.atleast_1d(struc.rmsd(ref[idx], f3[k][idx]))[0])
+        if abs(r - rf) > 1e-4 * rf + 0.5 * ulp:
+            R.bad("rmsd", rf, r)
+
+
 # --------------------------------------------------------------------------- S2: "anch"
 _POS = None
 
@@ -469,7 +553,7 @@ def do_anch(R, pay, out):
     R.events.append(ev)
 
 
-DO = {"fit": do_fit, "affine": do_affine, "hist": do_hist, "anch": do_anch}
+DO = {"fit": do_fit, "affine": do_affine, "hist": do_hist, "anch": do_anch, "far": do_far}
 
 
 def exec_group(item):
@@ -481,7 +565,7 @@ def exec_group(item):
     warnings.simplefilter("ignore")
     with open(item["file"]) as f:
         states = json.load(f)
-    mism, calls, events = [], 0, []
+    mism, calls, events, cov = [], 0, [], {}
     for k, (case, out) in enumerate(states):
         R = Rec(case, item["lo"] + k)
         progress({"case": case, "variant": R.idx})
@@ -494,7 +578,9 @@ def exec_group(item):
         mism += R.mm
         calls += R.calls
         events += R.events
-    return {"mismatch": mism, "calls": calls, "cases": len(states), "events": events}
+        for key, v in R.cov.items():
+            cov[key] = cov.get(key, 0) + v
+    return {"mismatch": mism, "calls": calls, "cases": len(states), "events": events, "cov": cov}
 
 
 # --------------------------------------------------------------------------- S3 recording
